@@ -64,16 +64,41 @@ Definition check_stream : rd verdict :=
                   | None => true
                   | Some e => forallb (fun c => negb (e <? c_start c) || (c_out c =? -1)) calls end) [] ]).
 
+Fixpoint advances (k : Z) (l : list Z) : bool :=
+  match l with
+  | a :: ((b :: _) as tl) => (b =? (a + 1) mod k) && advances k tl
+  | _ => true
+  end.
+
 Definition check_static : rd verdict :=
-  k <- getz ;; draws <- getlist getz ;; raced <- getbool ;;
+  k <- getz ;; draws <- getlist getz ;; raced <- getbool ;; inorder <- getbool ;;
   let n := Z.of_nat (length draws) in
   let count := fun j => Z.of_nat (length (filter (fun d => d =? j) draws)) in
   let idxs := map Z.of_nat (seq 0 (Z.to_nat k)) in
   ret (combine_verdicts
     [ prop_ok 20 (forallb (fun d => (0 <=? d) && (d <? k)) draws) [];
       prop_ok 21 (forallb (fun j => (n / k <=? count j) && (count j <=? (n + k - 1) / k)) idxs) [n; k];
+      (* strict rotation: draws made one after the other advance by one target each *)
+      prop_ok 23 (negb inorder || advances k draws) [k];
       prop_ok 22 (negb raced) [] ]).
+
+(* kind 3: the requests a real attack made while drawing from a stream targeter *)
+Record areq := { a_id : Z; a_body : Z; a_xids : list Z; a_owners : list Z; a_method : bool }.
+Definition getareq : rd areq :=
+  i <- getz ;; b <- getz ;; x <- getlist getz ;; o <- getlist getz ;; m <- getbool ;;
+  ret {| a_id := i; a_body := b; a_xids := x; a_owners := o; a_method := m |}.
+Definition whole (json : bool) (q : areq) : bool :=
+  a_method q && (match a_xids q with [x] => x =? a_id q | _ => false end) &&
+  forallb (fun o => o =? a_id q) (a_owners q) && (negb json || (a_body q =? a_id q)).
+Definition check_attack_stream : rd verdict :=
+  n <- getz ;; reqs <- getlist getareq ;; json <- getbool ;; stuck <- getbool ;;
+  let got := map a_id reqs in
+  ret (combine_verdicts
+    [ prop_ok 15 (negb stuck) [];
+      prop_ok 10 (nodupz got) [Z.of_nat (length got)];
+      prop_ok 11 (forallb (fun x => (0 <=? x) && (x <? n)) got && (Z.of_nat (length got) =? n)) [Z.of_nat (length got); n];
+      prop_ok 12 (forallb (whole json) reqs) [] ]).
 
 Definition check_c15 : rd verdict :=
   kind <- getz ;;
-  if kind =? 1 then check_stream else if kind =? 2 then check_static else fail.
+  if kind =? 1 then check_stream else if kind =? 2 then check_static else if kind =? 3 then check_attack_stream else fail.
